@@ -639,7 +639,7 @@ def run(ctx, rep, cases=None):
                 "non-trivial = operation node or parameter dependence or boundary; distinct = distinct (expression, call, parameter rows)")
     if cases is None:
         cases = []
-        want = ctx.scale(260, 2800)
+        want = ctx.scale(600, 6000)
         i = 0
         while len(cases) < want and i < 4 * want:
             cs = make_case(ctx, i)
@@ -652,9 +652,15 @@ def run(ctx, rep, cases=None):
     lines = []
     spans = []
     sels = []
+    timeouts = 0
     for cs in cases:
         node = geomgen.from_json(cs["dom"])
-        res = run_impl(cs)
+        if timeouts >= 5:
+            res = dict(skipped=True)     # enough hanging calls found; do not wait for more
+        else:
+            res = run_impl(cs)
+        if res.get("timeout"):
+            timeouts += 1
         results.append(res)
         a = len(lines)
         if "rows" in res:
@@ -689,9 +695,12 @@ def run(ctx, rep, cases=None):
         nontrivial = node.depth() > 1 or bool(node.free_vars())
         inp = dict(dom=cs["dom"], expression=node.tokens(), params=cs["params"], prows=cs["prows"], call=call, seed=cs["seed"], mode=cs["mode"])
         sample = dict(expression=node.tokens(), call=describe_call(cs), rows=len(res.get("rows", [])),
-                      first_row=(res["rows"][0][0] if res.get("rows") else res.get("error") or "timeout"),
+                      first_row=(res["rows"][0][0] if res.get("rows") else res.get("error") or ("not run" if res.get("skipped") else "timeout")),
                       model_margin=(replies[a] if b > a else None))
         rep.case(dict(dom=cs["dom"], call=call, prows=cs["prows"]), nontrivial, sample=sample, kind=cs["mode"] + ":" + call["api"])
+        if res.get("skipped"):
+            rep.count("not-run(after 5 time-outs)")
+            continue
         if res.get("timeout"):
             rep.fail(f"{describe_call(cs)} did not return within {TIMEOUT}s on a domain of positive measure", inp,
                      finding=classify_error(cs, "timeout"))
